@@ -515,6 +515,8 @@ def oracle(case, impl):
         return builder_oracle(case, impl)
     if impl.startswith(("PANIC", "CRASH", "TIMEOUT")):
         return ("violation", "did not return: " + impl[:40])
+    if " ;; NOTE " in impl:
+        return ("violation", "the public constructors of a wrapper disagree on the same members: " + impl.split(" ;; NOTE ", 1)[1][:100])
     t = etf.Toks(case)
     t.next()
     if op == "to":
@@ -659,7 +661,13 @@ def gen_wrapper(rng, kind=None):
     if k == "datetime":
         return ("datetime", i32(), u8(), u8(), u8(), u8(), u8(), u32(), u8(), s(), s(), i32(), i32())
     if k == "mapset":
-        return ("mapset", [gen_simple_term(rng, 2, set_member=True) for _ in range(rng.randrange(0, 6))])
+        ms = [gen_simple_term(rng, 2, set_member=True) for _ in range(rng.randrange(0, 6))]
+        if rng.random() < 0.45:
+            # the same member twice: literally, or in another representation of the same value
+            ms += rng.choice([[("l", []), ("n",)], [("n",), ("l", [])], [("i", 5), ("g", False, bytes([5]))], [("g", False, bytes([0, 1])), ("i", 256)],
+                              [("b", b"ab"), ("s", b"ab")], [("i", 7), ("i", 7)], [("t", [("l", [])]), ("t", [("n",)])]])
+            rng.shuffle(ms)
+        return ("mapset", ms)
     if k == "msgerr":
         return ("msgerr", rng.randrange(3), s())
     if k == "keyerr":
